@@ -40,7 +40,7 @@ class ParsePower(ParseContract):
         H = dict(head=cx.bool('text-before-bracket'), open=cx.bool('has-opening-bracket'), close=cx.bool('has-closing-bracket'), tail=cx.bool('text-after-closing-bracket'),
                  exp=cx.bool('exponent-text-nonempty'))
         cx.assume(z3.And(z3.Implies(H['close'], H['open']), z3.Implies(H['tail'], H['close']), z3.Implies(z3.Or(H['head'], H['open']), H['exp'])),
-                  axiom='contract of partition_scope (assumed): closing bracket only after an opening one, tail only after a closing one, pieces of an empty text are empty')
+                  axiom='contract of partition_scope (c19_scope): closing bracket only after an opening one, tail only after a closing one, pieces of an empty text are empty')
         S.H = H
         if self.nparts > 1:
             pieces[1].nonempty = H['exp']
@@ -160,5 +160,5 @@ def contracts():
 
 
 TRUSTED = []
-ASSUMPTIONS = ['parse_power: contract of partition_scope assumed as in parse_item; whitespace next to `^` and the first character of the exponent are symbolic facts about the text']
+ASSUMPTIONS = ['parse_power: partition_scope by its contract (c19_scope.PartitionScope) as in parse_item; whitespace next to `^` and the first character of the exponent are symbolic facts about the text']
 NOT_COVERED = []
